@@ -108,8 +108,8 @@ def run(tier):
         elif not x.get("ok") or x.get("out") != exp:
             C.violation(dict(key, kind="binding"), "call %s of %s (%s): engine %s, statement %r" % (
                 key["call"], key["sig"], form, repr(x.get("out")) if x.get("ok") else "error: " + (x.get("msg") or x.get("disp", ""))[:120], exp), {"job": job, "expected": exp, "got": x})
-    # ---- prefix priority and recursion families
-    extra(C)
+    # ---- prefix priority (vectors from Components!PrioVectors) and recursion families
+    extra(C, r.tags.get("PRIO", []))
     k = len(meta) // 2
     C.sample({"definition": definition(vecs[meta[k][0]]["sig"])[:120], "call": vecs[meta[k][0]]["call"], "form": meta[k][1], "expected": meta[k][2]})
     C.assumptions += ["type-checking of a declared default against its declared type is not demanded", "which refusal is reported when several apply is not demanded",
@@ -117,8 +117,26 @@ def run(tier):
     return C.finish()
 
 
-def extra(C):
+def extra(C, prio):
     jobs, meta = [], []
+    # definitions in lexicographic order of their template names (a.., m.., z..), priorities as the vector says
+    for pv in prio:
+        v = pv["v"]
+        letters = ["a", "m", "z"]
+        names, prefixes = [], {}
+        for i, x in enumerate(v):
+            if x == -1:
+                names.append(None)
+            elif x == 0:
+                names.append(letters[i] + "-exact.html")
+            else:
+                prefixes[x] = letters[i] + "%d/" % x
+                names.append(prefixes[x] + "c.html")
+        plist = [prefixes[k] for k in sorted(prefixes)]
+        tpls = [[n, "{% component k() %}from " + n + "{% endcomponent k %}"] for n in names if n] + [["use", "{{<k/>}}"]]
+        for order in (tpls, list(reversed(tpls))):
+            jobs.append({"cfg": {"prefixes": plist}, "steps": [{"op": "add", "tpls": order}, {"op": "render", "name": "use"}, {"op": "render_component", "name": "k", "auto": False}]})
+            meta.append(("prio", v, ("from " + names[pv["o"]["owner"] - 1]) if pv["o"]["r"] == "ok" else None))
     # the same component under several fallback prefixes: the highest-priority definition is used
     for present in (["A"], ["p/A"], ["q/A"], ["A", "p/A"], ["p/A", "q/A"], ["A", "q/A"], ["A", "p/A", "q/A"], ["q/A", "p/A", "A"]):
         tpls = [[n, "{% component k() %}from " + n + "{% endcomponent k %}"] for n in present] + [["use", "{{<k/>}}"]]
@@ -151,7 +169,16 @@ def extra(C):
         if any(y.get("panic") or y.get("abort") for y in rr):
             C.violation({"kind": "abort", "family": kind, "a": str(a), "b": b}, "process died or panicked: %s %s %s" % (kind, a, b), {"job": job, "result": rr})
             continue
-        if kind == "priority":
+        if kind == "prio":
+            if b is None:
+                if rr[0].get("ok"):
+                    C.violation({"kind": "prio-conflict", "v": a}, "two definitions of a component at the best priority (vector %s) were accepted" % a, {"job": job})
+            else:
+                for x in rr[1:]:
+                    if not x.get("ok") or x.get("out") != b:
+                        C.violation({"kind": "prio", "v": a}, "component defined at priorities %s (in name order; -1 absent, 0 exact name, k = k-th prefix): engine uses %r, the highest-priority definition is %r" % (
+                            a, x.get("out") if x.get("ok") else x.get("kind"), b), {"job": job})
+        elif kind == "priority":
             for x in rr[1:]:
                 if not x.get("ok") or x.get("out") != b:
                     C.violation({"kind": "priority", "present": a}, "component defined in %s: engine uses %r, the highest-priority definition is %r" % (a, x.get("out"), b), {"job": job})
